@@ -15,9 +15,10 @@ theorem tk_updateLocked (w : W) (rid : Nat) (c : Engine.Cmd) : TK (· = rid) NoX
   unfold W.updateLocked
   simp only []
   have hf := updF_fields w.db (!(w.k.getR rid).isAof && w.k.current == some rid && w.k.locks.isEmpty) c
-  exact ((TK.modR w rid _ (fun r => (hf r).1) (Or.inl rfl) (Or.inr fun r => (hf r).2.2.2.2.2)).trans
-    (TK.when _ _ _ ((TK.removeLongE _ rid).trans ((TK.addExpried _ rid).trans (TK.ref _ rid))))).trans
-    (TK.modR_q _ rid (fun r => { r with conn := c.conn }) (fun _ => rfl) (fun _ => rfl))
+  refine TK.trans ?_ (TK.modR_q _ rid (fun r => { r with conn := c.conn }) (fun _ => rfl) (fun _ => rfl))
+  refine TK.trans ?_ (TK.when _ _ _ ?_)
+  · exact TK.modR (XW := (· = rid)) (XH := NoX) w rid _ (fun r => (hf r).1) (Or.inl rfl) (Or.inr fun r => (hf r).2.2.2.2.2)
+  · exact (TK.removeLongE (XW := (· = rid)) (XH := NoX) _ rid).trans ((TK.addExpried _ rid).trans (TK.ref _ rid))
 
 theorem WT.updateLocked {w : W} (h : WT w) (rid : Nat) (c : Engine.Cmd) (ht : (w.k.getR rid).timeouted = true) : WT (w.updateLocked rid c) :=
   h.tk_tomb rid (tk_updateLocked w rid c) (tomb_pk (qk_updateLocked w rid c).t ht)
@@ -44,6 +45,11 @@ theorem WT.newLock {w : W} (h : WT w) (c : Engine.Cmd) (d : Option Bytes) : WT (
       exact h0.hq _ hh hd
     · have eg : (w.newLock c d).1.k.getR w.db.nextRid = newRec w.db.nextRid w.db.now c d := getR_addRec_same w.k (newRec w.db.nextRid w.db.now c d) hh
       rw [eg] at hd; exact absurd hd (by simp [newRec])
+
+theorem WT.when_freeCheck {w : W} (h : WT w) (b : Bool) (rid : Nat) : WT (w.when b (·.freeCheck rid)) := by
+  cases b
+  · exact h
+  · exact h.freeCheck rid
 
 /-- a hold gains or loses a level: it stays where it is -/
 theorem WT.modDepth {w : W} (h : WT w) (rid : Nat) (f : Rec → Rec) (hf : ∀ r, (f r).rid = r.rid) (hw : ∀ r, πW (f r) = πW r)
@@ -151,13 +157,6 @@ theorem applyUnlock_wt (s : DB) (h : DBKT s) (c : Engine.Cmd) (data : Option Byt
     have h2 := ((ho.q (TK.modR_q _ x (fun r => { r with expried := true }) (fun _ => rfl) (fun _ => rfl))).q
       (TK.modK _ (fun k => { k with locked := k.locked - ((s.openKey c.key).k.getR x).depth }) rfl rfl)).q (TK.procData _ .unlock c' (frameOf c' data) x)
     have h5 := ((h2.q (TK.dropLongE _ x)).q (TK.journalUnlock _ x (has c'.flag Slock.Engine.F_FROM_AOF) false 0)).removeLock x
-    have h6 : ∀ b : Bool, WT (((((((s.openKey c.key).modR x (fun r => { r with expried := true })).modK
-        (fun k => { k with locked := k.locked - ((s.openKey c.key).k.getR x).depth })).procData .unlock c' (frameOf c' data) x).dropLongE x).journalUnlock x
-        (has c'.flag Slock.Engine.F_FROM_AOF) false 0).modK (·.removeLock x)).when b (·.freeCheck x)) := by
-      intro b
-      cases b
-      · exact h5
-      · exact h5.freeCheck x
-    exact (((h6 _).q (TK.ctr _ _)).q (TK.reply _ _ _ _ _)).wake
+    exact (((h5.when_freeCheck _ x).q (TK.ctr _ _)).q (TK.reply _ _ _ _ _)).wake
 
 end Slock.SimTick
